@@ -181,6 +181,12 @@ def handle (op : String) (j : Json) : Option (Except String Json) :=
             jobj [("entry", entryJson c.1), ("units", jarr (c.2.map entryJson))]))]
         | .error e => jobj [("err", Json.str (werr e))]
       else jobj [("entries", entriesResult werr (ofWikiSection lines))])
+  | "c05.treeorder" => some do
+      let names ← (← getArr j "names").mapM asStr
+      let es : List Entry := names.map fun n => ⟨n, [], none⟩
+      let out := treeOrder es
+      pure (jobj [("order", jarr (out.map fun e => jstr e.name)), ("closed", jbool (groupClosed es)),
+                  ("preorder", jbool (Preorder [] out)), ("fixed", jbool (treeOrder out == out))])
   | "c05.escape" => some do
       let s ← getStr j "s"
       pure (jobj [("esc", jstr (escapeNl s)), ("back", jstr (unescapeNl (escapeNl s)))])
